@@ -441,17 +441,17 @@ class QCOW2VTBackend(QCOW2Backend):
         logging.debug(
             f"Showing {cls.state_type()} internal states for vm {params['vms']}"
         )
-        states = set()
+        states = None
         for image_name in params.objects("images"):
             image_params = params.object_params(image_name)
             # TODO: refine method arguments by providing at least the image name directly
             image_params["images"] = image_name
             image_states = super().show(image_params, object=object)
-            if len(states) == 0:
-                states = image_states
+            if states is None:
+                states = list(image_states)
             else:
-                states = states.intersect(image_states)
-        return states
+                states = [state for state in states if state in image_states]
+        return states if states is not None else []
 
     @classmethod
     def get(cls, params: Params, object: Any = None) -> None:
